@@ -36,6 +36,9 @@ type SeqModel struct {
 	Extras    []string
 	PlanDocs  string // name of an operator in MC_Seq
 	ViewMode  string
+	// crafted initial stores (CraftN > 0): drawn at random by TLC
+	CraftN, CraftTasks, CraftEpics int
+	CraftLegacy                    bool
 }
 
 func (m SeqModel) cfg(dev string, emit string, props, invs []string) string {
@@ -55,6 +58,14 @@ func (m SeqModel) cfg(dev string, emit string, props, invs []string) string {
 		vm = "graph"
 	}
 	fmt.Fprintf(&b, "  ViewMode = %q\n  Emit = %q\n", vm, emit)
+	mode := "empty"
+	if m.CraftN > 0 {
+		mode = "random"
+		if m.CraftLegacy {
+			mode = "legacy"
+		}
+	}
+	fmt.Fprintf(&b, "  CraftMode = %q\n  CraftN = %d\n  CraftTasks = %d\n  CraftEpics = %d\n", mode, m.CraftN, m.CraftTasks, m.CraftEpics)
 	b.WriteString("VIEW StateView\n")
 	all := append([]string{}, invs...)
 	if emit != "none" {
@@ -71,13 +82,14 @@ func (m SeqModel) cfg(dev string, emit string, props, invs []string) string {
 }
 
 func (m SeqModel) bounds() string {
-	return fmt.Sprintf("tasks<=%d epics<=%d depth<=%d agents=%v cmds=%v states=%v claims=%v extras=%v docs=%s",
-		m.MaxTasks, m.MaxEpics, m.Depth, m.Agents, m.CmdNames, m.StateArgs, m.ClaimArgs, m.Extras, m.PlanDocs)
+	return fmt.Sprintf("tasks<=%d epics<=%d depth<=%d agents=%v cmds=%v states=%v claims=%v extras=%v docs=%s crafted=%d(%dt,%de)",
+		m.MaxTasks, m.MaxEpics, m.Depth, m.Agents, m.CmdNames, m.StateArgs, m.ClaimArgs, m.Extras, m.PlanDocs, m.CraftN, m.CraftTasks, m.CraftEpics)
 }
 
 type emitted struct {
-	Hist  []Cmd `json:"hist"`
-	Alpha []Cmd `json:"alpha"`
+	Base  []map[string]any `json:"base"`
+	Hist  []Cmd            `json:"hist"`
+	Alpha []Cmd            `json:"alpha"`
 }
 
 func parseEmitted(lines []string) ([]emitted, error) {
@@ -147,6 +159,12 @@ func (e *Env) driveStates(tag string, states []emitted, judgeHist bool, workers 
 				if err != nil {
 					firstErr.Store(err)
 					continue
+				}
+				if len(st.Base) > 0 {
+					if err := writeCraftedLog(store, st.Base); err != nil {
+						firstErr.Store(err)
+						continue
+					}
 				}
 				sp := newStepper(store)
 				var local []*Obs
